@@ -29,9 +29,11 @@ def history_prefix(d, seed, n):
   return applied
 
 
-def make_body(base, mode, first_kind, nacts, size2, want, restore=True):
-  pools1 = F.Pools("full", kinds=[first_kind])
-  pools_n = F.Pools(size2)
+def make_body(base, mode, first_kind, nacts, size1, size2, want, restore=True):
+  # first_kind "K1" fixes the first action's kind; "K1+K2" also fixes the second action's kind
+  ks = first_kind.split("+")
+  pools1 = F.Pools(size1, kinds=[ks[0]])
+  pools_n = F.Pools(size2, kinds=[ks[1]] if len(ks) > 1 else None)
 
   def body(h):
     d = base.restore() if restore else F.build(base.fixture)
@@ -101,14 +103,14 @@ def warm_up():
     pass
 
 
-def run_shard(fixture, mode, first_kind, nacts, size2, want, prefix_n, seed, max_s, max_runs):
+def run_shard(fixture, mode, first_kind, nacts, size1, size2, want, prefix_n, seed, max_s, max_runs):
   warm_up()
   d = F.build(fixture)
   prefix = history_prefix(d, seed * 1000 + zlib.crc32(("%s %s" % (fixture, first_kind)).encode()) % 997, prefix_n)
-  body = make_body(F.Saved(d), mode, first_kind, nacts, size2, sorted(want))
+  body = make_body(F.Saved(d), mode, first_kind, nacts, size1, size2, sorted(want))
   res = enumz3.allsat(body, seed=seed, max_s=max_s, max_runs=max_runs)
   return {"shard": {"fixture": fixture, "mode": mode, "first_kind": first_kind, "nacts": nacts,
-                    "pools2": size2, "prefix": prefix},
+                    "pools1": size1, "pools2": size2, "prefix": prefix},
           "runs": res.runs, "exhaustive": res.exhaustive, "solver_s": res.solver_s, "queries": res.queries,
           "nontrivial": res.nontrivial, "outputs": res.outputs, "errors": res.errors,
           "samples": res.samples, "nvars": res.nvars, "wall_s": res.wall_s, "stopped": res.stopped}
